@@ -2,7 +2,7 @@
    Theorem statements only; proofs are in Rank.v / Betti.v. *)
 From Coq Require Import ZArith List.
 From mathcomp Require Import all_ssreflect all_algebra.
-From SV Require Import Names Rep Complex Homology ListMat SnfCount Rank Betti EulerP Gen.
+From SV Require Import Names Rep Complex Homology ListMat SnfCount Rank Betti EulerP Gen RepInv Shapes Incidence Closed ClosedReach Components Betti0 RelabelAll.
 Import ListNotations.
 
 (* the elimination of _reduceBoundaries, on every 0/1 matrix of every shape, ends in the partial
@@ -52,3 +52,38 @@ Proof. vm_compute. reflexivity. Qed.
 Example C06_projective_plane :
   bettis (build [[0;1;2];[0;2;3];[0;3;4];[0;4;5];[0;1;5];[1;2;4];[2;3;5];[1;3;4];[2;4;5];[1;3;5]]) = List.map Z.of_nat [1; 1; 1].
 Proof. vm_compute. reflexivity. Qed.
+
+(* THE 0TH BETTI NUMBER IS THE NUMBER OF CONNECTED COMPONENTS: for every complex built by public
+   operations (cinv) that has edges, bettiNumbers()[0] is the number of connected components --
+   as counted by Mathematical Components' n_comp -- of the graph on the points in which two points
+   are adjacent when they are the two ends of an edge (adjB of the order-1 boundary operator B1) *)
+Theorem C06_betti0_is_the_number_of_components :
+  forall r, cinv r -> (1 < r_nord r)%coq_nat -> betti1 r 0 = Z.of_nat (n_comp (adjB (B1 r)) predT).
+Proof. exact betti0_components. Qed.
+Print Assumptions C06_betti0_is_the_number_of_components.
+(* ... adjacency spelled out on the boundary operator: distinct points that are both faces of one edge *)
+Theorem C06_adjacency_is_sharing_an_edge :
+  forall r (a b : 'I_(nrows (boundaryOperator r 1))),
+  reflect (exists j : 'I_(ncols (boundaryOperator r 1)),
+             [/\ a != b, mentry (boundaryOperator r 1) a j & mentry (boundaryOperator r 1) b j])
+          (adjB (B1 r) a b).
+Proof. exact adjB_B1. Qed.
+Print Assumptions C06_adjacency_is_sharing_an_edge.
+(* ... and without edges every point is a component of its own *)
+Theorem C06_betti0_without_edges :
+  forall r, sinv r -> (r_nord r <= 1)%coq_nat -> betti1 r 0 = Z.of_nat (length (simplicesOfOrder r 0)).
+Proof. exact betti0_no_edges. Qed.
+Print Assumptions C06_betti0_without_edges.
+(* the linear algebra behind it: a matrix over GF(2) with exactly two ones in every column has
+   rank = #rows - #connected components *)
+Theorem C06_rank_of_an_incidence_matrix :
+  forall n m (B : 'M['F_2]_(n, m)),
+  (forall j, exists a b : 'I_n, a != b /\ forall i, B i j = GRing.natmul (GRing.one _) ((i == a) || (i == b))) ->
+  (\rank B + n_comp (adjB B) predT = n)%N.
+Proof. exact rank_graph. Qed.
+Print Assumptions C06_rank_of_an_incidence_matrix.
+(* the Betti numbers do not depend on the names: a renaming leaves them unchanged *)
+Theorem C06_independent_of_names :
+  forall phi r r', renamed_by phi r r' -> forall ks, bettiNumbers r' ks = bettiNumbers r ks.
+Proof. intros phi r r' H. exact (proj1 (proj2 (proj2 (renamed_homology phi r r' H)))). Qed.
+Print Assumptions C06_independent_of_names.
